@@ -166,6 +166,22 @@ def bounded(ctx):
     good = [ba.build_module(BsaI, "AACC", "ACGTAC", "GGAT", rng), ba.build_module(BsaI, "GGAT", "TTTGGG", "CTAA", rng)]
     vgood, _ = ba.build_vector(BsaI, "CTAA", "AACC", rng)
     junk = ["A", "n", "ACGTNNRYacgt", good[0][:20], vgood, "GGTCTC", "".join(rng.choice(IUPAC30) for _ in range(80))]
+    # valid modules whose overhangs are their own reverse complement (AATT, ACGT), alone and next to their mirror image
+    pal = [ba.build_module(BsaI, "AATT", "ACGTAC", "GGAT", rng), ba.build_module(BsaI, "AACC", "TTGACA", "ACGT", rng),
+           ba.build_module(BsaI, "AATT", "CCATGC", "AATT", rng), ba.build_module(BsaI, "ACGT", "CATCAT", "CTAA", rng)]
+    pal = [x_ for x_ in pal if x_ is not None]
+    vpal, _ = ba.build_vector(BsaI, "GGAT", "AATT", rng)
+    good_ = list(good)
+    for vt in [v_ for v_ in (vgood, vpal) if v_ is not None]:
+        for combo in itertools.product(pal + good_[:1], repeat=2):
+            evals += 1
+            vec = Vec(CircularRecord(Seq(vt), id="v"))
+            ms = [Mod(CircularRecord(Seq(t), id="m%d" % i)) for i, t in enumerate(combo)]
+            got, prod, w = ba.run_assembly(vec, ms)
+            distinct.add(("palindromic", vt[:8], combo[0][:8], combo[1][:8]))
+            if got[0] not in ("product", "InvalidSequence", "DuplicateModules", "MissingModule"):
+                viol.append(dict(name="assembly_palindromic_%s" % got[0], what="assembly of vector %r with modules %r (palindromic overhangs) ended with %r" % (
+                    vt[:30], [c[:30] for c in combo], got), case=dict(vector=vt, modules=list(combo))))
     for vt in [vgood] + junk[:4]:
         for combo in itertools.product(good + junk, repeat=2):
             evals += 1
